@@ -163,3 +163,43 @@ def oracle(c, o):
     if len(vals) != len(o['vals']) or not np.allclose(vals, o['vals'], rtol=1e-7, atol=1e-9):
         return f"values {o['vals']} != mean over ordered pairs of distinct folds {vals}"
     return None
+
+
+# -------------------------------------------------------------------------------- supporting tests
+def support(rng, tier):
+    """designs with many folds named by strings (24 sessions): the crossnobis / poisson_cv value is still the mean over ordered
+    pairs of distinct folds of the between-fold products (seeded change C02-m10: a membership test that is only wrong for long value
+    lists); compared with the formula of the property evaluated with NumPy on the fold-wise condition means"""
+    import rsatoolbox
+    from rsatoolbox.rdm import calc_rdm
+    res = []
+    rs = np.random.RandomState(2 + rng.randrange(1000))
+    for rep in range(2 if tier == 'quick' else 12):
+        n_cond, p, n_fold = rs.randint(2, 4), rs.randint(1, 3), rs.randint(22, 27)
+        conds = np.tile(np.arange(n_cond), n_fold)
+        folds = np.repeat(np.arange(n_fold), n_cond)
+        perm = rs.permutation(len(conds))
+        conds, folds = conds[perm], folds[perm]
+        names = np.array([f'sess-{f:02d}' for f in folds])
+        X = rs.randint(1, 40, size=(len(conds), p)) / 8.0
+        ds = rsatoolbox.data.Dataset(X, obs_descriptors={'c': conds, 'f': names})
+        m = np.array([[X[(conds == c) & (folds == f)].mean(0) for f in range(n_fold)] for c in range(n_cond)])
+        for method in ('crossnobis', 'poisson_cv'):
+            got = calc_rdm(ds, method=method, descriptor='c', cv_descriptor='f').dissimilarities[0]
+            want = []
+            for a in range(n_cond):
+                for b in range(a + 1, n_cond):
+                    tot = 0.0
+                    for f1 in range(n_fold):
+                        for f2 in range(n_fold):
+                            if f1 != f2:
+                                if method == 'crossnobis':
+                                    tot += (m[a, f1] - m[b, f1]) @ (m[a, f2] - m[b, f2])
+                                else:
+                                    la, lb = (m[a, f1] + 0.1) / 1.1, (m[b, f1] + 0.1) / 1.1
+                                    ka, kb = (m[a, f2] + 0.1) / 1.1, (m[b, f2] + 0.1) / 1.1
+                                    tot += (la - lb) @ (np.log(ka) - np.log(kb))
+                    want.append(tot / (n_fold * (n_fold - 1)) / p)
+            res.append((f'many_string_folds_{method}_{rep}', bool(np.allclose(got, want, rtol=1e-8, atol=1e-11)),
+                        dict(method=method, n_folds=int(n_fold), observed=[float(x) for x in got], expected=[float(x) for x in want])))
+    return res
